@@ -216,7 +216,10 @@ func (rg *Range) obligations() []*boundOb {
 				// integers that already exist in memory) + 2^16
 				sum := newLin()
 				for name := range rg.atoms {
-					inputLen := (strings.HasPrefix(name, "len(param:") || strings.HasPrefix(name, "len(out<")) && !strings.Contains(name, "make(")
+					// the length of any value that already exists in memory (an input, a
+					// field, a callee's result); a buffer this function sized itself is
+					// judged at its own make
+					inputLen := strings.HasPrefix(name, "len(") && !strings.Contains(name, "make(")
 					bigSize := strings.HasPrefix(name, "call<(*math/big.Int).BitLen>(") || strings.HasPrefix(name, "len(call<(*math/big.Int).Bytes>(")
 					if inputLen || bigSize {
 						sum = sum.plus(linAtom(name))
